@@ -749,6 +749,35 @@ func runPVPath(c *core.Ctx) {
 			}
 		})
 	}
+	// the fields of the repository types that hold the bare name: filled by RepoGet from its name parameter as it is
+	nameFields := map[*types.Var]bool{}
+	for _, fam := range r.Families {
+		get := getLock(c).MethodOf(fam.Store, "RepoGet")
+		if get == nil {
+			continue
+		}
+		fns := []*ssa.Function{get}
+		an.Calls(get, func(call ssa.CallInstruction) {
+			if sc := call.Common().StaticCallee(); sc != nil && core.FuncPkgPath(sc) == r.StorePath {
+				fns = append(fns, sc)
+			}
+		})
+		for _, f := range fns {
+			an.Instrs(f, func(in ssa.Instruction) {
+				st, ok := in.(*ssa.Store)
+				if !ok {
+					return
+				}
+				fa, ok := st.Addr.(*ssa.FieldAddr)
+				if !ok || an.NamedOf(an.Deref(fa.X.Type())) != fam.Repo {
+					return
+				}
+				if pr, isParam := an.Origin(st.Val).(*ssa.Parameter); isParam && isStringType(pr.Type()) {
+					nameFields[fieldVarOf(fa)] = true
+				}
+			})
+		}
+	}
 	for _, s := range fsSinks(c) {
 		if core.FuncPkgPath(s.fn) != r.StorePath {
 			continue
@@ -775,6 +804,15 @@ func runPVPath(c *core.Ctx) {
 				tags = append(tags, "session")
 			}
 			c.SetTags(tags...)
+			if ok {
+				// … and it starts below the root: the leftmost component is not the repository's bare name (the field RepoGet fills
+				// with its name parameter) — a path that starts there is relative to the working directory of the process
+				if leaf := leftmostComponent(p); leaf != nil {
+					if fa := fieldAddrOf(leaf); fa != nil && nameFields[fieldVarOf(fa)] {
+						ok, why = false, fmt.Sprintf("the repository's name (field %s) as its first component: the path is relative to the working directory, not to the configured root", fieldVarOf(fa).Name())
+					}
+				}
+			}
 			if ok {
 				c.Pass(key, s.call.Pos(), "composed of allowed components only")
 			} else {
@@ -1066,4 +1104,52 @@ func keyFields(arg ssa.Value) map[string][]ssa.Value {
 		}
 	}
 	return out
+}
+
+// leftmostComponent: the first component of a path built with filepath.Join / path.Join or string concatenation.
+func leftmostComponent(p ssa.Value) ssa.Value {
+	for i := 0; i < 8; i++ {
+		switch x := an.Strip(p).(type) {
+		case *ssa.Call:
+			if (an.IsFunc(x, "path/filepath", "Join") || an.IsFunc(x, "path", "Join")) && len(x.Call.Args) == 1 {
+				elems, ok := variadicElemsOrdered(x.Call.Args[0])
+				if !ok || len(elems) == 0 {
+					return nil
+				}
+				p = elems[0]
+				continue
+			}
+			return x
+		case *ssa.BinOp:
+			if x.Op == token.ADD {
+				p = x.X
+				continue
+			}
+			return x
+		default:
+			return x
+		}
+	}
+	return nil
+}
+
+func fieldAddrOf(v ssa.Value) *ssa.FieldAddr {
+	if u, ok := an.Strip(v).(*ssa.UnOp); ok && u.Op == token.MUL {
+		if fa, ok := u.X.(*ssa.FieldAddr); ok {
+			return fa
+		}
+	}
+	return nil
+}
+
+func fieldVarOf(fa *ssa.FieldAddr) *types.Var {
+	if st, ok := an.Deref(fa.X.Type()).Underlying().(*types.Struct); ok && fa.Field < st.NumFields() {
+		return st.Field(fa.Field)
+	}
+	return nil
+}
+
+func isStringType(t types.Type) bool {
+	b, ok := t.Underlying().(*types.Basic)
+	return ok && b.Kind() == types.String
 }
